@@ -43,3 +43,9 @@ def run(ctx, proofs_ok):
     q = ctx.tier == "quick"
     conc.run_scenarios(ctx, [("tcp-exec-isolation", 15 if q else 150, w) for w in ((0, 25) if q else (0, 10, 30, 60))],
                        "EXEC isolation under concurrent connections (observers use MGET and their own MULTI/EXEC)")
+    if ctx.violations:
+        return
+    # the gate protocol (Model/Gate.lean, `gev` lines of the recorded trace): transactions against a waiter
+    # blocked in BLPOP that their own push wakes up, the optimistic WATCH loop, a mix of every kind of command
+    conc.run_scenarios(ctx, [("tcp-exec-bpop", 12 if q else 100, 0), ("tcp-watch-incr", 3 if q else 20, 0), ("tcp-mix", 6 if q else 60, 0)],
+                       "gate protocol: EXEC against blocking pops, optimistic loops and command mixes of other connections")
